@@ -392,12 +392,20 @@ def instances(tier):
             done += 1
             if got is not None:
                 raise Violation('instances:empty_database_lookup', f'an opened database with no entries returned a circuit for {want}')
-        for types_, outs in ((('GT', 'AND'), 'uv'), (('AND', 'GT'), 'uv'), (('OR', 'LT'), 'uv'), (('LT', 'AND'), 'uv'),
-                             (('AND', 'XOR'), 'uuv'), (('AND', 'XOR'), 'uvv'), (('AND', 'OR'), 'uvu')):
+        base_list = ((('GT', 'AND'), 'uv'), (('AND', 'GT'), 'uv'), (('OR', 'LT'), 'uv'), (('LT', 'AND'), 'uv'),
+                     (('AND', 'XOR'), 'uuv'), (('AND', 'XOR'), 'uvv'), (('AND', 'OR'), 'uvu'), (('GT', 'GT'), 'u'), (('LT', 'LT'), 'u'),
+                     (('GT', 'OR'), 'uv'), (('LT', 'OR'), 'uv'), (('GT', 'XOR'), 'uv'), (('LT', 'XOR'), 'uv'))
+        # (the circuit as built, with its input list put in another order afterwards, or with an input renamed afterwards -
+        # which moves it in the gate storage, not in the input list)
+        for types_, outs, past in [(t_, o_, p_) for p_ in ('built', 'inputs_reordered', 'input_renamed') for t_, o_ in base_list]:
             c2 = core.Circuit.bare_circuit(2)
             c2.emplace_gate('u', getattr(core.gate, types_[0]), ('0', '1'))
             c2.emplace_gate('v', getattr(core.gate, types_[1]), ('0', '1'))
             c2.set_outputs(list(outs))
+            if past == 'inputs_reordered':
+                c2.set_inputs(['1', '0'])
+            elif past == 'input_renamed':
+                c2.rename_gate('0', 'first_input')
             try:
                 own.add_circuit(c2)
             except core.CirboError:
@@ -408,7 +416,7 @@ def instances(tier):
                 got = own.get_by_raw_truth_table(want)
                 done += 1
                 if got is None or [[bool(x) for x in row] for row in got.get_truth_table()] != want:
-                    raise Violation('instances:own_database_lookup', f'a circuit with gates {types_} and outputs {list(outs)} was stored; looking up '
+                    raise Violation('instances:own_database_lookup', f'a circuit with gates {types_} and outputs {list(outs)} ({past}) was stored; looking up '
                                     f'{[list(map(int, r)) for r in want]} gives {None if got is None else [list(map(int, r)) for r in got.get_truth_table()]}')
         own.close()
     return {'evaluations': done, 'distinct_nontrivial': done, 'exhaustive': True,
